@@ -495,7 +495,8 @@ theorem depositRun_eq (s : State) (p : Proposal) (who : Addr) (amt : Nat) : depo
   have e4 : ∀ l, depStep who amt l "setProposal" = { l with s := { l.s with props := putProp l.s.props l.p } } := fun _ => rfl
   have e5 : ∀ l, depStep who amt l "msgMin" = { l with min := minForMsgs l.s.custom (l.min.fx.getD 0) l.p.msgs } := fun _ => rfl
   have e6 : ∀ l, depStep who amt l "activate" =
-      (if l.p.status == .deposit && reaches l.p.total l.min then { l with s := activate l.s l.p } else l) := fun _ => rfl
+      (if l.p.status == .deposit && reaches l.p.total l.min then { l with s := activate l.s l.p } else l) := fun l => by
+    rw [← activateRun_eq]; rfl
   have e7 : ∀ l, depStep who amt l "setDeposit" =
       { l with s := { l.s with deps := addDep l.s.deps l.p.id who amt, paid := l.s.paid ++ [⟨l.p.id, who, amt⟩] } } := fun _ => rfl
   simp only [List.foldl, n1, n2, n3, n4, n5, n6, n7, n8, n9, n10, n11, n12, n13, e1, e2, e3, e4, e5, e7]
